@@ -84,6 +84,15 @@ void sim::engine_tools(RunCtx& cx) {
                     // fallthrough
             default: in.kind = "valid"; in.bytes = file; break;
         }
+        // a quarter of the valid inputs come from a producer that does not de-duplicate its block tables (equal entries, references
+        // spread over them): the merged file must still resolve every record to the same values
+        if (in.kind == "valid" && !in.bytes.empty() && r.chance(1, 4)) {
+            try {
+                ref::Node root = ref::Decoder(in.bytes).parse_all();
+                Rng q(mix64(cx.seed, 7500 + k));
+                if (ref::duplicate_table_entries(root, q)) { in.bytes = ref::encode_preferred(root); in.kind = "valid-duplicate-table-entries"; cx.ctr->add("probe.input_with_duplicate_table_entries"); }
+            } catch (std::exception&) {}
+        }
         if (in.present && !in.bytes.empty() && in.kind.find("listed-twice") == std::string::npos) {
             try { in.rf = ref::Interp::file(in.bytes); in.parsed = true; } catch (std::exception&) { in.parsed = false; }
         }
